@@ -210,6 +210,42 @@ func Run(c *core.Ctx) {
 		cls, rid := classifyReal(txt)
 		recs = append(recs, rec{"op": "classify", "j": j, "cls": cls, "rid": rid, "dbg": txt})
 	}
+	// the same texts decoded one after the other into ONE store.Value (a loop variable, a struct field): every
+	// decode stands for itself, whatever was decoded into the value before - delete actions in particular
+	var shared store.Value
+	delTxt := `{"action":"delete"}`
+	for i, j := range vals {
+		if i%4 == 1 {
+			json.Unmarshal([]byte(delTxt), &shared) // a delete action right before
+		}
+		cls, rid := "invalid", ""
+		if err := json.Unmarshal([]byte(texts[i]), &shared); err == nil {
+			switch shared.Type {
+			case store.ValueTypePrimitive:
+				cls = "primitive"
+			case store.ValueTypeReference:
+				cls, rid = "ref", shared.RID
+			case store.ValueTypeSoftReference:
+				cls, rid = "softref", shared.RID
+			case store.ValueTypeData:
+				cls = "data"
+			case store.ValueTypeDelete:
+				cls = "delete"
+			default:
+				cls = "none"
+			}
+			// what was decoded marshals to a text that decodes to the same kind of value
+			if b, err := json.Marshal(shared); err != nil {
+				cls = "unmarshalable:" + cls
+			} else if c2, _ := classifyReal(string(b)); c2 != cls {
+				cls = "remarshal-" + c2 + ":" + cls
+			}
+		}
+		recs = append(recs, rec{"op": "classify", "j": j, "cls": cls, "rid": rid, "dbg": "decoded into a reused Value: " + texts[i]})
+	}
+	if b, err := json.Marshal(store.DeleteValue); err != nil || string(b) != delTxt {
+		recs = append(recs, rec{"op": "classify", "j": jObj([]interface{}{"action", jStr(0)}), "cls": "store.DeleteValue marshals to " + string(b), "rid": "", "dbg": "the package's delete value after the decodes"})
+	}
 	// numbers that differ only beyond what a float64 holds, alone and inside data values
 	near := [][2]string{{"9007199254740993", "9007199254740992"}, {"0.1", "0.10000000000000000001"}, {"123456789012345678901", "123456789012345678902"}, {"1", "1"}}
 	var nearPairs [][2]int
